@@ -145,6 +145,7 @@ class FnInfo:
             raise LostAnchor(f'fn {item.name} has no body')
         self.loops = []    # dicts: kw, label_start, open, close
         self.returns = []
+        self.breaks = []
         self.closures = []  # dicts: bar1, bar2 (token idx of the two |), body_start tok idx
         i = item.body_open + 1
         end = item.body_close
@@ -173,6 +174,8 @@ class FnInfo:
                     self.loops.append(dict(kw=i, start=start, open=j, close=k, kind=t.text))
             elif t.kind == 'id' and t.text == 'return':
                 self.returns.append(i)
+            elif t.kind == 'id' and t.text == 'break':
+                self.breaks.append(i)
             elif is_p(t, '|'):
                 # closure literal: `|` in expression-start position
                 prev = toks[i - 1]
@@ -229,6 +232,8 @@ class FnInfo:
         a = anchor.split()
         it = self.item
         try:
+            if a[0] == 'attr':
+                return self.off(it.first)
             if a[0] == 'sig':
                 return self.off(it.body_open)
             if a[0] == 'entry':
@@ -251,6 +256,8 @@ class FnInfo:
                 return self.end_off(self.loops[int(a[1])]['close'])
             if a[0] == 'return':
                 return self.off(self.returns[int(a[1])])
+            if a[0] == 'break':
+                return self.off(self.breaks[int(a[1])])
             if a[0] == 'closure' and a[2] == 'spec':
                 return self.end_off(self.closures[int(a[1])]['bar2'])
         except IndexError:
@@ -291,6 +298,16 @@ def strip_edits(sf, first, last):
             edits.append((t.start, t.end, '', 'R-VIS'))
             i += 1
             continue
+        # `if log_enabled!(..) { .. }` statement without else: log-only
+        if is_id(t, 'if') and i + 3 <= last and is_id(toks[i + 1], 'log_enabled') and is_p(toks[i + 2], '!') and is_p(toks[i + 3], '('):
+            prev = toks[i - 1]
+            k = match_close(toks, i + 3)
+            if prev.kind == 'punct' and prev.text in ('{', '}', ';') and is_p(toks[k + 1], '{'):
+                k2 = match_close(toks, k + 1)
+                if not is_id(toks[k2 + 1], 'else'):
+                    edits.append((t.start, toks[k2].end, '', 'R-LOG'))
+                    i = k2 + 1
+                    continue
         # log statement: [log ::] name ! ( ... ) ;
         if t.kind == 'id' and (t.text in LOG_MACROS):
             prev = toks[i - 1]
@@ -305,6 +322,93 @@ def strip_edits(sf, first, last):
                     i = k + 2
                     continue
         i += 1
+    return edits
+
+
+def pub_edits(sf, item, add_item_pub=True):
+    """R-VIS part 2: after stripping, make the item and (for structs) its fields `pub`, so that
+    specifications may mention them (single-file crate: visibility has no semantic content)."""
+    toks = sf.toks
+    edits = []
+    if add_item_pub and item.kind in ('fn', 'struct', 'enum', 'type', 'const', 'static'):
+        # insert before qualifiers (const/unsafe/async fn) : right after attrs/vis => at first non-attr, non-vis token
+        i = item.first
+        while i < item.kw:
+            t = toks[i]
+            if is_p(t, '#'):
+                j = i + 1
+                if is_p(toks[j], '!'):
+                    j += 1
+                i = match_close(toks, j) + 1
+                continue
+            if is_id(t, 'pub'):
+                i += 1
+                if is_p(toks[i], '('):
+                    i = match_close(toks, i) + 1
+                continue
+            break
+        edits.append((toks[i].start, toks[i].start, 'pub ', 'R-VIS'))
+    if item.kind == 'struct':
+        # named fields
+        if item.body_open is not None:
+            i = item.body_open + 1
+            expect = True
+            adepth = 0
+            while i < item.body_close:
+                t = toks[i]
+                if expect:
+                    if is_p(t, '#'):
+                        i = match_close(toks, i + 1) + 1
+                        continue
+                    if is_id(t, 'pub'):
+                        i += 1
+                        if is_p(toks[i], '('):
+                            i = match_close(toks, i) + 1
+                        continue
+                    if t.kind == 'id' and is_p(toks[i + 1], ':'):
+                        edits.append((t.start, t.start, 'pub ', 'R-VIS'))
+                        expect = False
+                if t.kind == 'punct' and t.text in ('(', '[', '{'):
+                    i = match_close(toks, i)
+                elif is_p(t, '<'):
+                    adepth += 1
+                elif is_p(t, '>') and not is_p(toks[i - 1], '-'):
+                    adepth -= 1
+                elif is_p(t, ',') and adepth == 0:
+                    expect = True
+                i += 1
+        else:
+            # tuple struct: struct A(T, U);
+            i = item.kw
+            while i <= item.last and not is_p(toks[i], '('):
+                i += 1
+            if i <= item.last:
+                k = match_close(toks, i)
+                j = i + 1
+                depth = 0
+                start = True
+                while j < k:
+                    t = toks[j]
+                    if start:
+                        if is_p(t, '#'):
+                            j = match_close(toks, j + 1) + 1
+                            continue
+                        if is_id(t, 'pub'):
+                            j += 1
+                            if is_p(toks[j], '('):
+                                j = match_close(toks, j) + 1
+                            continue
+                        edits.append((t.start, t.start, 'pub ', 'R-VIS'))
+                        start = False
+                    if t.kind == 'punct' and t.text in ('(', '[', '{'):
+                        j = match_close(toks, j)
+                    elif is_p(t, '<'):
+                        depth += 1
+                    elif is_p(t, '>') and not is_p(toks[j - 1], '-'):
+                        depth -= 1
+                    elif is_p(t, ',') and depth == 0:
+                        start = True
+                    j += 1
     return edits
 
 
@@ -485,7 +589,54 @@ def rw_hoist(fi, args):
     return edits
 
 
+def rw_letchain(fi, args):
+    """R-LETCHAIN: `if let P = E && C { B }` (no else)  ->  `if let P = E { if C { B } }`."""
+    toks = fi.toks
+    edits = []
+    i = fi.item.body_open + 1
+    while i < fi.item.body_close:
+        if is_id(toks[i], 'if') and is_id(toks[i + 1], 'let'):
+            j = i + 2
+            amps = []
+            while not is_p(toks[j], '{'):
+                if toks[j].kind == 'punct' and toks[j].text in ('(', '['):
+                    j = match_close(toks, j)
+                elif is_p(toks[j], '&') and is_p(toks[j + 1], '&') and toks[j + 1].start == toks[j].end:
+                    amps.append(j)
+                    j += 1
+                j += 1
+            if amps:
+                k = match_close(toks, j)
+                if is_id(toks[k + 1], 'else'):
+                    raise LostAnchor(f'fn {fi.item.name}: R-LETCHAIN cannot rewrite a let-chain with an else branch')
+                for a in amps:
+                    edits.append((toks[a].start, toks[a + 1].end, '{ if', 'R-LETCHAIN'))
+                edits.append((toks[k].end, toks[k].end, ' }' * len(amps), 'R-LETCHAIN'))
+        i += 1
+    if not edits:
+        raise LostAnchor(f'fn {fi.item.name}: R-LETCHAIN did not fire')
+    return edits
+
+
+def rw_iter(fi, args):
+    """R-ITER: `for P in E {` -> `for P in __itK: E {` : names Verus's ghost iterator of loop K so that
+    invariants can mention its position. Purely an annotation (erased with the other ghost code)."""
+    toks = fi.toks
+    edits = []
+    for a in args:
+        lp = fi.loops[int(a)]
+        if lp['kind'] != 'for':
+            raise LostAnchor(f'fn {fi.item.name}: R-ITER on a non-for loop')
+        j = lp['kw'] + 1
+        while not is_id(toks[j], 'in'):
+            j += 1
+        edits.append((toks[j].end, toks[j].end, f' __it{a}:', 'R-ITER'))
+    return edits
+
+
 REWRITES = {
+    'R-ITER': rw_iter,
+    'R-LETCHAIN': rw_letchain,
     'R-HOIST': rw_hoist,
     'R-BOOLOP': rw_boolop,
     'R-FOR': rw_for_range,
@@ -526,11 +677,13 @@ class Generated:
         self.clauses = []     # (fn, anchor, text)
 
 
-def emit_fn(gen, sf, item, spec, canary=False, qual=''):
+def emit_fn(gen, sf, item, spec, canary=False, qual='', in_trait=False):
     fi = FnInfo(sf, item)
     toks = sf.toks
     src = sf.src
     edits = strip_edits(sf, item.first, item.last)
+    if not in_trait:
+        edits += pub_edits(sf, item)
     if spec.ret:
         edits += ret_edit(sf, item, spec.ret)
     for rule, args in spec.rewrites:
@@ -544,7 +697,11 @@ def emit_fn(gen, sf, item, spec, canary=False, qual=''):
             has_sig = True
             if canary:
                 text = canary_sig(text)
-        edits.append((off, off, '\n' + text + '\n', ('unit', org[0], org[1] - 1)))
+        e = (off, off, '\n' + text + '\n', ('unit', org[0], org[1] - 1))
+        if anchor == 'attr':
+            edits.insert(0, e)
+        else:
+            edits.append(e)
     if canary and not has_sig:
         off = fi.anchor_offset('sig')
         edits.append((off, off, '\n    ensures false,\n', ('unit', spec.unit_path, spec.line)))
@@ -574,7 +731,7 @@ def emit_fn(gen, sf, item, spec, canary=False, qual=''):
 
 
 def emit_item(gen, sf, item):
-    edits = strip_edits(sf, item.first, item.last)
+    edits = strip_edits(sf, item.first, item.last) + pub_edits(sf, item)
     gen.out.nl()
     apply_edits(sf.src, sf.toks[item.first].start, sf.toks[item.last].end, edits, gen.out, sf.rel)
     gen.out.nl()
@@ -601,6 +758,7 @@ def generate(unit_path, canaries=True):
     load(unit_path)
 
     i = 0
+    pending_canaries = []
     cur_impl = None      # (sf, impls, header)
     n = len(lines)
 
@@ -683,6 +841,16 @@ def generate(unit_path, canaries=True):
         elif w[0] == 'end-impl':
             gen.out.nl()
             gen.out.add('}\n', lambda k, p=p, ln=ln: ('unit', p, ln))
+            if pending_canaries:
+                sf, impls, header = cur_impl
+                m2 = re.match(r'^impl\s*(<.*?>)?\s*(?:.*?)\s+for\s+(.*)$', header)
+                inh = f'impl{m2.group(1) or ""} {m2.group(2)} {{'
+                gen.out.add(inh + '\n', lambda k, p=p, ln=ln: ('unit', p, ln))
+                for (sf2, item2, spec2, qual2) in pending_canaries:
+                    emit_fn(gen, sf2, item2, spec2, canary=True, qual=qual2)
+                gen.out.nl()
+                gen.out.add('}\n', lambda k, p=p, ln=ln: ('unit', p, ln))
+                pending_canaries = []
             cur_impl = None
             i += 1
         elif w[0] == 'fn':
@@ -691,16 +859,21 @@ def generate(unit_path, canaries=True):
                 name = w[1]
                 spec, i = parse_fn_block(i + 1, name, p, ln)
                 item = sf.find_method(impls, name)
-                qual = re.sub(r'^impl\s*(<[^>]*>)?\s*', '', header) + '::'
+                qual = re.sub(r'^impl\s*(<[^>]*>)?\s*', '', header)
+                qual = re.sub(r'^.*\sfor\s+', '', qual) + '::'
             else:
                 sf = SrcFile.get(w[1])
                 name = w[2]
                 spec, i = parse_fn_block(i + 1, name, p, ln)
                 item = sf.find_item('fn', name)
                 qual = ''
-            emit_fn(gen, sf, item, spec, canary=False, qual=qual)
+            is_trait = cur_impl is not None and bool(re.search(r'\sfor\s', cur_impl[2]))
+            emit_fn(gen, sf, item, spec, canary=False, qual=qual, in_trait=is_trait)
             if canaries and spec.canary:
-                emit_fn(gen, sf, item, spec, canary=True, qual=qual)
+                if cur_impl is not None and re.search(r'\sfor\s', cur_impl[2]):
+                    pending_canaries.append((sf, item, spec, qual))
+                else:
+                    emit_fn(gen, sf, item, spec, canary=True, qual=qual)
         else:
             raise LostAnchor(f'{p}:{ln}: unknown directive: {d}')
     return gen
